@@ -4,7 +4,8 @@ CONSTANTS MaxLen = 2
  Eols = {"LF","CRLF","CR"}
  Seed = 0
  Stride = 1
- FixLine = TRUE
+ LineOff = 1
+ RecordedLineDev = 1
  Emit = FALSE
-INVARIANTS SameButSplice SameProbes
+INVARIANTS SameButRecorded SameProbes
 CHECK_DEADLOCK FALSE
